@@ -66,6 +66,7 @@ func runC18(c *core.Ctx) {
 	runR184(c)
 	runR185(c)
 	runR186(c)
+	runR188(c, runR187(c))
 
 	// ---- R18.2
 	lockKey := "T:" + core.Mod + "/metrics.hist.lock*"
